@@ -16,6 +16,7 @@ func rawBytes(t *testing.T, rep *kit.Report, env kit.Env, evals, nontrivial, tra
 	if !mine() && env.Shards > 1 && env.Shard != 0 {
 		return
 	}
+	markCase("raw", "raw part")
 	synctest.Test(t, func(t *testing.T) {
 		tw := build()
 		try := func(raw []byte, what string) {
@@ -87,6 +88,7 @@ func linkReader(t *testing.T, rep *kit.Report, env kit.Env, evals, nontrivial, t
 		if !mine() {
 			continue
 		}
+		markCase("raw", "raw part")
 		synctest.Test(t, func(t *testing.T) {
 			for b := 0; b < 256; b++ {
 				for _, follow := range []int{0, 60} {
@@ -124,6 +126,7 @@ func linkReader(t *testing.T, rep *kit.Report, env kit.Env, evals, nontrivial, t
 					continue
 				}
 				pos, l, follow := pos, l, follow
+				markCase("raw", "raw part")
 				synctest.Test(t, func(t *testing.T) {
 					a, b := mk("A", 0), mk("B", 1)
 					watch := kit.WatchPanics(a)
@@ -186,6 +189,7 @@ func linkReader(t *testing.T, rep *kit.Report, env kit.Env, evals, nontrivial, t
 		ci := ci
 		for _, follow := range []string{"exact", "short-then-eof"} {
 			follow := follow
+			markCase("raw", "raw part")
 			synctest.Test(t, func(t *testing.T) {
 				a, b := mk("A", 0), mk("B", 1)
 				watch := kit.WatchPanics(a)
@@ -233,6 +237,7 @@ func linkReader(t *testing.T, rep *kit.Report, env kit.Env, evals, nontrivial, t
 				continue
 			}
 			kind, n := kind, n
+			markCase("raw", "raw part")
 			synctest.Test(t, func(t *testing.T) {
 				wd := kit.NewWorld()
 				add := func(name string, i int) *kit.Node {
